@@ -34,4 +34,18 @@ CHECKS = {
            "xsi:type polymorphism and xs:any content outside the model; Conforms excludes out-of-range integers, TAB/CR in strings, None "
            "under a != default guard; text level: open finding C01:cdata-in-text."),
  },
+ "C04": {
+  "category": "proof",
+  "technique": "Lean 4 proof over the regenerated binding table + variant-text correspondence",
+  "design_ref": "DESIGN.md §5 C04",
+  "text": ("Tree-level theorems for every well-formed table: c04_attr_order (attribute permutation), c04_ignores_text (character "
+           "data/comments between children and the element's own tag), c04_explicit_default (an explicitly written default = absent "
+           "attribute), c04_unknown_attr, c04_fixpoint (load-then-write reproduces the written tree, any number of cycles) and, on "
+           "today's table, c04_export_pure/c04_fixpoint_table (kernel decide). Tied by the C01 translator plus a correspondence "
+           "stream that feeds presentation variants of real writer output to the real build and to the model; byte stability over 3 "
+           "cycles, double export and in-memory purity are checked on the real code."),
+  "note": ("Trusted as C01; numeric respellings are below the tree level (CPython float()/int(), sampled); whitespace/comment handling "
+           "by lxml is trusted; xs:any content excluded (open finding C04:any-content-tail-growth); namespace-prefix rewritings are not "
+           "among the property's variants and are not modelled."),
+ },
 }
